@@ -382,6 +382,74 @@ def run_concrete(pid, scen_name, params, inputs, excluded=()):
 
 
 # -------------------------------------------------------------------------------------------------
+_NUM = None
+
+
+def _skeleton(items):
+    """Command skeleton of a program note: codes and parameter letters, numbers blanked; None if not comparable."""
+    import re
+    global _NUM
+    if _NUM is None:
+        _NUM = re.compile(r"[-+]?(?:\d+\.?\d*|\.\d+)(?:[eE][-+]?\d+)?")
+    if not isinstance(items, list):
+        return None
+    out = []
+    for t in items:
+        if not isinstance(t, str) or "<symbolic" in t:
+            return None
+        words = t.split()
+        sk = []
+        for i, wd in enumerate(words):
+            if i == 0 and wd[:1] in "GMT" and wd[1:].replace(".", "").isdigit():
+                sk.append(wd)
+            else:
+                sk.append(_NUM.sub("#", wd))
+        out.append(" ".join(sk))
+    return out
+
+
+def _alignment_sample(pid, sc, scen, seed, setup, excl, want=2):
+    from symx import core
+    core.WITNESS_MODE = True
+    try:
+        st3, vs3, _ = core.run_scenario(scen, seed=seed, setup=setup, budget_s=30, early_stop=16)
+    finally:
+        core.WITNESS_MODE = False
+    vs3 = [v for v in vs3 if v["label"] == "path-witness"]
+    cands = list(vs3)
+    # prefer paths with many non-default choices (they exercise the selector naming)
+    cands.sort(key=lambda v: -sum(1 for k, x in v["inputs"].items() if k.startswith("sel_") and x))
+    res = {"sampled_paths": len(vs3), "replayed": 0, "programs_compared": 0, "cover_compared": 0, "mismatches": []}
+    for v in cands[:want]:
+        v = dict(v, excluded=list(excl))
+        path = write_replay(pid, sc, v, tag="align-%s-%d" % (sc.name, res["replayed"]))
+        rr = replay_file(path)
+        try:
+            os.remove(path)
+        except OSError:
+            pass
+        if rr.get("error") or rr.get("diverged"):
+            continue            # (replay infrastructure trouble is reported by the candidate replays, not here)
+        res["replayed"] += 1
+        extra = v.get("extra", {})
+        sym = _skeleton(extra.get("program"))
+        conc = _skeleton((rr.get("notes") or {}).get("program"))
+        if sym is not None and conc is not None:
+            res["programs_compared"] += 1
+            if conc[:len(sym)] != sym:
+                res["mismatches"].append("program: symbolic %r / concrete %r" % (sym, conc))
+                continue
+        sc_cov, cc_cov = extra.get("_covered"), rr.get("covered")
+        if sc_cov is not None and cc_cov is not None:
+            res["cover_compared"] += 1
+            missing = sorted(set(sc_cov) - set(cc_cov))
+            if missing:
+                # data-dependent cover points can flip under float rounding at a boundary: reported, not a verdict
+                res.setdefault("cover_notes", []).append("cover points of the symbolic path not reached "
+                                                         "concretely: %r" % (missing,))
+    return res
+
+
 def run_property(hm, tier, seed):
     """Generic driver. `hm` is the harness module (PROPERTY, plan(tier), SCENARIOS, META)."""
     from symx import core, shims, loader
@@ -392,6 +460,7 @@ def run_property(hm, tier, seed):
     excluded = []
     kf_confirmed = []
     replays_run = 0
+    align_runs = 0
     status = EXIT_OK
     # 1. known findings: replay each open witness on the current tree
     for k in known:
@@ -471,6 +540,17 @@ def run_property(hm, tier, seed):
             info["twin_violations"] = len(vs2)
             if not vs2:
                 inconclusive.append("%s: must-fail twin found no violation (vacuous harness)" % sc.name)
+            else:
+                # replay-alignment guard: the concrete world must walk the SAME program as the symbolic path it
+                # replays (selector naming, literal rendering); sampled on completed paths with varied choices
+                al = _alignment_sample(pid, sc, scen, seed, setup, excl)
+                info["replay_alignment"] = al
+                align_runs += al["replayed"]
+                for cn in al.get("cover_notes", []):
+                    print("  [%s] NOTE %s replay alignment: %s" % (pid, sc.name, cn))
+                if al["mismatches"]:
+                    inconclusive.append("%s: concrete replay walks a different program than the symbolic path: %s"
+                                        % (sc.name, al["mismatches"][0]))
         per_scen.append(info)
         print("  [%s] %s: paths=%d obligations=%d unsat=%d sat=%d unknown=%d solver=%.1fs wall=%.1fs%s" % (
             pid, sc.name, st.paths, st.obligations, st.obl_unsat, st.obl_sat, st.obl_unknown,
@@ -495,7 +575,7 @@ def run_property(hm, tier, seed):
             os.remove(path)
         else:
             os.remove(path)
-    replays_run += corpus_runs
+    replays_run += corpus_runs + align_runs
     # 2. replay candidates (distinct labels first)
     reproduced = []
     not_reproduced = 0
